@@ -726,6 +726,40 @@ def run_cases(ck, T, cases, label):
     return out
 
 
+INTERPRETER_CONFIGS = (("python-O", {"pyflags": ["-O"]}), ("PYTHONHASHSEED=3,cwd=/", {"extra_env": {"PYTHONHASHSEED": "3"}, "cwd": "/"}))
+
+
+def canon_code(code):
+    return [code[0], sorted(str(x) for x in code[1])] if isinstance(code, list) and len(code) == 2 and isinstance(code[1], list) else code
+
+
+def interpreter_configurations(ck, script, payload, ref, canon, describe):
+    """the interpreter's configuration is not input: the same deterministic cases under `python -O` (asserts stripped) and with
+    another hash seed (set / dict iteration order) from another working directory must give the same canonicalised results as the
+    default run `ref`.  canon(result) -> comparable structure; describe(i) -> the input of the i-th case."""
+    def one(cfg):
+        return ck.try_impl(script, payload, timeout=400, label="interpreter[%s]" % cfg[0], **cfg[1])
+    with ThreadPoolExecutor(max_workers=2) as ex:
+        outs = list(ex.map(one, INTERPRETER_CONFIGS))
+    want = canon(ref)
+    for (label, _), o in zip(INTERPRETER_CONFIGS, outs):
+        if o is None:
+            continue
+        got = canon(o)
+        for i, (a, b) in enumerate(zip(want, got)):
+            ck.tally("other-interpreter-configuration:" + label.split(",")[0])
+            if a != b:
+                where = next((k for k, (x, y) in enumerate(zip(a, b)) if x != y), 0) if isinstance(a, list) and isinstance(b, list) else 0
+                ck.witness("%s:interpreter-configuration:%s" % (ck.pid, label.split(",")[0]),
+                           "under %s the results differ from those of the default interpreter (case %d, step %d)" % (label, i, where),
+                           input=describe(i), expected=a[where] if isinstance(a, list) and where < len(a) else a,
+                           observed=b[where] if isinstance(b, list) and where < len(b) else b)
+                break
+        if len(want) != len(got):
+            ck.witness("%s:interpreter-configuration:%s" % (ck.pid, label.split(",")[0]), "under %s %d results instead of %d"
+                       % (label, len(got), len(want)), input=describe(0))
+
+
 ALLOWED_CLASS_ATTRS = ("_GeneratedsSuperSuper__all_members_", "_GeneratedsSuperSuper__nml_hier")
 
 
@@ -947,6 +981,13 @@ def run(ck):
     ck.extra["parents"] = len(parents)
     ck.extra["pairs_exhaustive"] = thorough
     pairs = run_cases(ck, T, cases, "C10")
+    sub = cases[:10]
+    keys = ("code", "changed", "warn", "parent_after", "ret", "holds_child", "disabled", "ret_is_child", "filters_changed")
+    interpreter_configurations(
+        ck, "c10_impl.py", {"order": {c: T.field_order(c) for c in T.order}, "cases": sub}, {"results": [r for _, r in pairs[:10]]},
+        lambda o: [[[canon_code(c_.get(k)) if k == "code" else c_.get(k) for k in keys] for c_ in r_.get("calls", [])] + [r_.get("harness_error")]
+                   for r_ in o["results"]],
+        lambda i: {"parent": sub[i]["parent"], "calls": sub[i]["calls"][:4]})
     for case, res in pairs:
         if "harness_error" in res:
             continue
